@@ -27,7 +27,7 @@ CHECKS = {
    note="`parses` is judged by syn 2 here; rustc judges the compiled properties (C01-C03, C07, C11, C20); corpus expressions/types/patterns are well-formed by construction",
    technique=TECH_X + " + structural inspection of the output through a real parser"),
  "C05": dict(level="model_checking", design="DESIGN.md §8 C05",
-   text="one member mapped to two counterparts with all 12 kinds each (24 impls) x every sequence of <= 3 member instructions (21 mapping names x {default, dedicated T, dedicated U} + 3 ghost names x 3) in every order, unique marker per instruction: (1) the impl of every (kind, fallibility, counterpart) contains exactly the marker of the instruction the precedence model M_prec designates; (2) removing any instruction leaves every impl where it is not the winner token-identical",
+   text="one member (named-struct field; and with <= 2 instructions: tuple-struct field, field of a named / tuple enum variant, an enum variant itself, a member nested inside #[parent(..)]) mapped to two counterparts with all 12 kinds each (24 impls) x every sequence of <= 3 member instructions (21 mapping names x {default, dedicated T, dedicated U} + 3 ghost names x 3) in every order, unique marker per instruction: (1) the impl of every (kind, fallibility, counterpart) contains exactly the marker of the instruction the precedence model M_prec designates; (2) removing any instruction leaves every impl where it is not the winner token-identical",
    note="M_prec transcribed from the C05 statement; impls located by (trait, Self, argument) through a real parser; runtime cross-check of winners is part of C01/C07's compiled spaces",
    technique=TECH_X + " + comparison with a reference precedence model and a metamorphic non-interference oracle"),
  "C14": dict(level="model_checking", design="DESIGN.md §8 C14",
@@ -67,19 +67,19 @@ CHECKS = {
    note="the list of instructions that have a bare form is read from o2o-macros/src/lib.rs at start-up; diagnostics compared modulo the documented allow_unknown suffix",
    technique=TECH_X + " with a metamorphic (respelling) oracle"),
  "C15": dict(level="fault_enumeration", design="DESIGN.md §8 C15",
-   text="6 valid hosts x ~60 concrete misuse injections covering every class of the statement x every admissible position x every pair: verdict must be Err and every injected fault must be named by a diagnostic (salient key words); fault-free hosts and the semantic struct space (valid by construction) must be accepted",
+   text="6 valid hosts x ~65 concrete misuse injections covering every class of the statement x every admissible position x every pair x host parameter forms (update / vars / attribute) (+ the name rule for positional members decided both ways by M_prec over 24 trait names x member instructions x dedication x form; accept-only sweeps over the semantic spaces): verdict must be Err and every injected fault must be named by a diagnostic (salient key words); fault-free hosts and the semantic struct space (valid by construction) must be accepted",
    note="`names the problem` = contains the class's salient identifiers/key words (OR of AND-sets), not full wording",
    technique="exhaustive fault injection (every class x every position x every pair) on the real implementation against a diagnostic reference table"),
  "C18": dict(level="exploration", design="DESIGN.md §8 C18",
-   text="the union corpus (host corpus, C16 instruction pairs and single-token mutations, attribute-form space, child_parents separator space) expanded by two builds of the same harness (o2o-impl with syn 1 / with syn 2) and joined by key: equal verdicts, identical token streams, equal sets of o2o-authored diagnostics",
+   text="the union corpus (host corpus, C16 instruction pairs and single-token mutations, attribute-form space, child_parents separator space, token-forms: 19 token-forwarding holes x ~280 exotic attribute contents / literals / patterns / expressions / types / where predicates) expanded by two builds of the same harness (o2o-impl with syn 1 / with syn 2) and joined by key: equal verdicts, identical token streams, equal sets of o2o-authored diagnostics",
    note="a DeriveInput parse failure of the parser library counts as reject; parser-library wording is exempt; both builds use proc_macro2's fallback lexer",
    technique=TECH_X + " with a differential oracle between the two back-end builds"),
  "C19": dict(level="model_checking", design="DESIGN.md §8 C19, §6",
-   text="hooks build: every HashMap/HashSet of o2o-impl is a stand-in whose iteration order is a choice point of the explorer; for every input (incl. all pairs of misuse injections = several diagnostics at once) every iteration order of every iterated container is enumerated while the real derive runs and the rendered result must be identical; plus guard-off runs in K fresh processes must be byte-equal to the explored singleton (labelled sampling over hash seeds)",
-   note="assumes hash-container order is the only environment-dependent choice (no statics/env/time/I-O in o2o-impl, checked by reading); a std::collections import that bypasses the cfg-switched use lines is only visible to the fresh-process runs",
+   text="hooks build: every HashMap/HashSet of o2o-impl is a stand-in whose iteration order is a choice point of the explorer; for every input (incl. all pairs of misuse injections = several diagnostics at once) every iteration order of every iterated container is enumerated while the real derive runs and the rendered result must be identical; plus guard-off runs in K fresh processes under three environments (inherited, empty, cargo-like with odd values) must be byte-equal to the explored singleton (labelled sampling over hash seeds); plus a getenv-interposed run (LD_PRELOAD shim built with cc): a variable read only while inputs are expanded is a violation",
+   note="hash-container order and environment variables are owned by the harness (order oracle; getenv tracing, recorded as getenv_traced in the evidence - when cc is unavailable only the three environment profiles remain); clock, files and statics are not intercepted (none in o2o-impl, checked by reading); a std::collections import that bypasses the cfg-switched use lines is only visible to the fresh-process runs",
    technique="stateless model checking of the real code under a controlled order oracle (exhaustive enumeration of iteration orders) + conformance runs in fresh processes"),
  "C16": dict(level="exploration", design="DESIGN.md §8 C16",
-   text="bounded exhaustive enumeration of derive inputs (token soup per instruction, all pairs/triples of a 90-entry instruction catalogue over all holes of 4 hosts, all single-token mutations) run through the real derive under catch_unwind; no sampling",
+   text="bounded exhaustive enumeration of derive inputs (token-forms; token soup per instruction, all pairs/triples of a 90-entry instruction catalogue over all holes of 4 hosts, all single-token mutations) run through the real derive under catch_unwind; no sampling",
    note="inputs lexed by proc_macro2's fallback lexer + syn 1 default features (the production path minus rustc's lexer); bounds: argument length <= 3 tokens, <= 3 instructions per input; panics already present on the pinned tree are listed in known_findings.json by (panic site, minimal cause class)",
    technique=TECH_X),
  "C20": dict(level="exploration", design="DESIGN.md §8 C20",
